@@ -1,7 +1,7 @@
 (* Extract.v -- extraction of the executable model and spec oracles to OCaml.
    ExtrOcamlBasic only; numbers stay the Coq datatypes. *)
 From Coq Require Import Extraction ExtrOcamlBasic.
-From Lhasa Require Import Base Generated Crc16 DecBase BitReader Null Lzs Lz5 Decoder S_Larc Lh1 Lzhuf PmaCommon Pm2 Pm1 LhNew InputStream Header BasicReader Fs FsRun Printf Glob ListOut S_LhNew.
+From Lhasa Require Import Base Generated Crc16 DecBase BitReader Null Lzs Lz5 Decoder S_Larc Lh1 Lzhuf PmaCommon Pm2 Pm1 LhNew InputStream Header BasicReader Fs FsRun Printf Glob ListOut S_Pm S_LhNew.
 Extraction Language OCaml.
 Set Extraction Optimize.
 Extraction "../harness/ml/model.ml"
@@ -28,5 +28,6 @@ Extraction "../harness/ml/model.ml"
   safe_output match_glob matches_filter lha_filter_next_file parse_command_line parse_main
   list_output list_output_cmd ratio_string compression_percent gmtime_utc
   fmt_s fmt_c fmt_u fmt_x fmt_d fmt_f1
+  pm_expand pm2_auto pm2_serialise pm2_denote wf_pm2 pm1_auto pm1_pick_header pm1_serialise pm1_denote wf_pm1 pm1_zero_extended
   lhn_lit lhn_copy lz77_expand lz77_expand_ref canonical_code complete_code tab_code
   v_lh4 v_lh5 v_lh6 v_lh7 v_lhx v_lk7 wf_block wf_stream block_bits serialise_stream serialise_bytes denote auto_stream.
